@@ -69,6 +69,22 @@ RECURSIVE MeaningOf(_)
 MeaningOf(b) == CASE b.b = "atom" -> Atom(b.v)
                   [] b.b = "not" -> Not(MeaningOf(b.x))
                   [] OTHER -> Strip(Nary(b.b, [i \in 1..Len(b.xs) |-> MeaningOf(b.xs[i])]))
+\* what a tree asks: its truth value under an assignment of the atoms; two trees ask the same question iff they agree
+\* under every assignment
+RECURSIVE Eval(_, _)
+RECURSIVE EvalList(_, _, _)
+EvalList(op, xs, asg) == IF Len(xs) = 1 THEN Eval(xs[1], asg)
+                         ELSE LET h == Eval(xs[1], asg) r == EvalList(op, Tail(xs), asg) IN
+                              CASE op = "and" -> h /\ r [] op = "or" -> h \/ r [] OTHER -> h # r
+Eval(t, asg) == CASE t.k = "atom" -> asg[t.v]
+                  [] t.k = "not" -> ~Eval(t.x, asg)
+                  [] t.k = "paren" -> Eval(t.x, asg)
+                  [] OTHER -> EvalList(t.k, t.xs, asg)
+RECURSIVE AtomsOf(_)
+AtomsOf(t) == CASE t.k = "atom" -> {t.v}
+                [] t.k \in {"not", "paren"} -> AtomsOf(t.x)
+                [] OTHER -> UNION {AtomsOf(t.xs[i]) : i \in 1..Len(t.xs)}
+SameQuestion(t1, t2) == LET as == AtomsOf(t1) \cup AtomsOf(t2) IN \A asg \in [as -> BOOLEAN] : Eval(t1, asg) = Eval(t2, asg)
 Leaves == {[b |-> "atom", v |-> a] : a \in Atoms}
 Ops == {"and", "or", "xor"}
 T1 == Leaves \cup {[b |-> "not", x |-> x] : x \in Leaves} \cup {[b |-> o, xs |-> <<x, y>>] : o \in Ops, x \in Leaves, y \in Leaves}
@@ -76,5 +92,5 @@ T2 == T1 \cup {[b |-> "not", x |-> x] : x \in T1}
          \cup {[b |-> o, xs |-> <<x, y>>] : o \in Ops, x \in T1, y \in Leaves}
          \cup {[b |-> o, xs |-> <<y, x>>] : o \in Ops, x \in T1, y \in Leaves}
          \cup {[b |-> o, xs |-> <<x, y, z>>] : o \in Ops, x \in Leaves, y \in Leaves, z \in Leaves}
-Faithful(b) == Strip(Parse(Emit(BuildOf(b)))) = MeaningOf(b)
+Faithful(b) == Strip(Parse(Emit(BuildOf(b)))) = MeaningOf(b) /\ SameQuestion(Parse(Emit(BuildOf(b))), MeaningOf(b))
 =============================================================================
